@@ -51,6 +51,10 @@ RULE = ('all tables with 0..n rows: kind kv = key over K4 {None, i1, i2, s1} x v
         'and a tuple of equal items are ONE key under petl\'s order; hash-based counting forms, '
         'groupcountdistinctvalues and callable keys excluded); callable keys with presorted=True also for rowreduce, '
         'fold, groupselectfirst, groupselectlast. '
+        'x transient-failure histories (kinds kv2, ck; thorough also vk): the source fails once at each position '
+        '(header, each row, exhaustion) during pass 1 of aggregate (simple / multi), rowreduce, fold, '
+        'groupselectfirst/last/min/max, mergeduplicates built with buffersize 1..nrows (the sort spills, cache=True), '
+        'then passes 2 and 3 on the same view must equal the reference. '
         'x strategy: petl.config.sort_buffersize = 1..nrows with NO buffersize argument, kept set while the view is '
         'built and iterated (kinds vk, ek; thorough also ck, rg, sq); '
         'x strategy: default, buffersize=1, buffersize=2, presorted=True (only on tables whose key column is '
@@ -872,7 +876,8 @@ def _operand_plan(tier):
 def items(tier, seed):
     out = []
     for n in range(0, 5):
-        for axis, plan in (('plain', _plan(tier)), ('operand', _operand_plan(tier))):
+        flaky_plan = [('kv2', 1, 3), ('ck', 1, 2)] if tier == 'quick' else [('kv2', 1, 3), ('vk', 1, 3), ('ck', 1, 2)]
+        for axis, plan in (('plain', _plan(tier)), ('operand', _operand_plan(tier)), ('flaky', flaky_plan)):
             for kind, lo_n, hi_n in plan:
                 if not (lo_n <= n <= hi_n):
                     continue
@@ -880,6 +885,8 @@ def items(tier, seed):
                 step = _PER_ITEM[n] * (3 if kind == 'mv' else 1) * (2 if KINDS[kind].spelled else 1)
                 if axis == 'operand':
                     step = max(1, step // 3)
+                if axis == 'flaky':
+                    step = max(1, step // 4)
                 for lo in range(0, total, step):
                     out.append((kind, n, lo, min(total, lo + step), axis))
     return out
@@ -889,6 +896,8 @@ def bounds(tier, seed):
     tables = {}
     optables = {}
     for kind, n, lo, hi, axis in items(tier, seed):
+        if axis == 'flaky':
+            continue
         d = tables if axis == 'plain' else optables
         d[kind] = d.get(kind, 0) + hi - lo
     return {'plan': [list(p) for p in _plan(tier)], 'tables_per_kind': tables, 'call_forms': len(FORMS),
@@ -995,9 +1004,107 @@ def run_operand_item(item, acc):
                             acc.outcome((operand, obs))
 
 
+# ---------------------------------------------------------------------------------------------
+# transient-failure histories: the source fails ONCE (at each position: header, each row, exhaustion) during
+# pass 1 of a view built with buffersize <= rows (the internal sort spills; cache left at True); passes 2 and 3
+# on the SAME view must equal the reference
+# ---------------------------------------------------------------------------------------------
+
+class Boom(Exception):
+    pass
+
+
+class FlakyTable(object):
+    def __init__(self, table, fail_at):
+        self.table = table
+        self.fail_at = fail_at
+        self.failed = False
+
+    def __iter__(self):
+        return self._gen()
+
+    def _gen(self):
+        for pos, item in enumerate(self.table):
+            if pos == self.fail_at and not self.failed:
+                self.failed = True
+                raise Boom('transient failure at item %d' % pos)
+            yield item
+        if self.fail_at == len(self.table) and not self.failed:
+            self.failed = True
+            raise Boom('transient failure at exhaustion')
+
+
+FLAKY_FORMS = ('aggregate(len)', 'aggregate(list,id)', 'aggregate(OrderedDict of specs)', 'rowreduce',
+               'fold(sequence of ids)', 'groupselectfirst', 'groupselectlast', 'groupselectmin', 'groupselectmax',
+               'mergeduplicates')
+
+
+def flaky_history(f, t, K, fail_at, bs):
+    """[pass1, pass2, pass3] observations of one view over a source that fails once at fail_at; None when the
+    failure already hits while the view is built."""
+    global _CUR_OPERAND
+    _CUR_OPERAND = 'tuple'
+    try:
+        view = f.run(FlakyTable(t, fail_at), K, {'buffersize': bs}, None)
+    except Boom:
+        return None
+    hist = []
+    for _ in range(3):
+        try:
+            it = iter(view)
+            hdr = norm(next(it))
+            hist.append(('ok', (hdr, [norm(r) for r in it])))
+        except Exception as e:
+            hist.append(('raises', type(e).__name__, str(e)[:120]))
+    return hist
+
+
+def judge_flaky(f, t, K, fail_at, bs, hist=None):
+    if hist is None:
+        hist = flaky_history(f, t, K, fail_at, bs)
+    if hist is None:
+        return []
+    for i, obs in enumerate(hist):
+        if i == 0 and obs[0] == 'raises':
+            continue                        # the transient failure itself - not judged
+        for sig, e, o, msg in judge(f, t, K, {'buffersize': bs}, None, obs):
+            return [('a later pass after a transient source failure: ' + sig, e, o,
+                     '%s: pass %d on the same view after the source failed once during pass 1 - %s' % (f.name, i + 1, msg))]
+    return []
+
+
+def run_flaky_item(item, acc):
+    kind, n, lo, hi, axis = item
+    K = KINDS[kind]
+    forms = [FORMS[name] for name in FLAKY_FORMS if applicable(FORMS[name], K)]
+    for rows in _tables(kind, n, lo, hi):
+        t = (K.hdr,) + rows
+        for bs in range(1, n + 1):
+            for fail_at in range(0, n + 2):
+                for f in forms:
+                    hist = flaky_history(f, t, K, fail_at, bs)
+                    acc.states += 1
+                    acc.counters['flaky-histories'] += 1
+                    if hist is None:
+                        continue
+                    acc.transitions += 3
+                    acc.evals += 2 if hist[0][0] == 'raises' else 3
+                    if hist[0][0] == 'raises':
+                        acc.counters['flaky-pass1-raised:' + f.name] += 1
+                        if is_nontrivial(rows, K):
+                            acc.nontrivial += 1
+                    for sig, e, o, msg in judge_flaky(f, t, K, fail_at, bs, hist):
+                        c = case_of(f, K, t, 'buffersize', {'buffersize': bs}, None, sig)
+                        c['flaky_fail_at'] = fail_at
+                        acc.violation('%s | %s' % (f.name, sig), c, e, o, msg)
+        acc.outcome(('flaky', kind, n))
+
+
 def run_item(item, acc):
     if len(item) == 5 and item[4] == 'operand':
         return run_operand_item(item, acc)
+    if len(item) == 5 and item[4] == 'flaky':
+        return run_flaky_item(item, acc)
     kind, n, lo, hi = item[:4]
     K = KINDS[kind]
     forms = [f for f in FORMS.values() if applicable(f, K)]
@@ -1040,8 +1147,12 @@ def replay(case):
     p = case['param']
     if isinstance(p, list):
         p = tuple(p)
-    bad = [b for b in judge(f, t, K, dict(case['strategy']), p, operand=case.get('operand', 'tuple'))
-           if b[0] == case['sig']]
+    if 'flaky_fail_at' in case:
+        bad = [b for b in judge_flaky(f, t, K, case['flaky_fail_at'], case['strategy']['buffersize'])
+               if b[0] == case['sig']]
+    else:
+        bad = [b for b in judge(f, t, K, dict(case['strategy']), p, operand=case.get('operand', 'tuple'))
+               if b[0] == case['sig']]
     if not bad:
         return None
     sig, e, o, msg = bad[0]
@@ -1051,6 +1162,9 @@ def replay(case):
 def vacuity(cov, tier):
     c = cov['per_case_counters']
     problems = ['no non-trivial case for ' + name for name in FORMS if not c.get('nt:' + name)]
+    for name in FLAKY_FORMS:
+        if not c.get('flaky-pass1-raised:' + name):
+            problems.append('no transient-failure history for ' + name)
     for s in ('default', 'buffersize', 'presorted', 'config'):
         if not c.get('strategy:' + s):
             problems.append('strategy %s never ran' % s)
